@@ -37,4 +37,10 @@ SingleOK == ~permsg => (Len(ImplNames) = 1 /\ Distinct(ImplNames))
 OnePerMessage == permsg => Len(ImplNames) = Len(msgs)
 \* expected violation: messages with distinct full names get distinct files
 InjectiveNaming == permsg => Distinct(ImplNames)
+
+\* ---- the parameter domain (spec -> code): TLC prints every (key, value) pair of a bounded domain once; the harness runs the plug-in with
+\* each of them and TraceGenerator requires acceptance exactly where Generator!ParamOK holds
+ParamKeys == {"apiversion", "filepermessage", "enableunsafedecode", "debug", "specialname", "dest", "Apiversion", "filePerMessage", "unsafe", "bogus"}
+ParamVals == {"", "v1", "v2", "V1", "V2", "v3", "2", "true", "false", "TRUE", "False", "1", "0", "t", "F", "yes", "no", "on", "tRuE", "Size", "a b"}
+EmitParams == (msgs = <<>> /\ permsg) => \A k \in ParamKeys : \A v \in ParamVals : PrintT(<<"PARAM", k, v>>)
 =============================================================================
